@@ -409,13 +409,13 @@ def judge_run(res, cfg, length, with_none=False):
         # keeps is its own business): a new adapter around an equally used element must give the same
         try:
             fr_a, _ = build_fr(cfg)
-            fr_b, _ = build_fr(cfg)
+            fr_b, el_b = build_fr(cfg)
             list(fr_a.run(iter(M.flow_values(kind, length))))
             list(fr_b.run(iter(M.flow_values(kind, length))))
             second = M.flow_values(kind, 2 * n + 1)
             with step_budget(run_limit(2 * n + 1)):
                 got_a = list(fr_a.run(iter(second)))
-            fresh_adapter = lena.core.FillRequest(fr_b._el, **_kw(cfg))
+            fresh_adapter = lena.core.FillRequest(el_b, **_kw(cfg))
             got_b = list(fresh_adapter.run(iter(M.flow_values(kind, 2 * n + 1))))
             res.count("second_runs_compared")
             if got_a != got_b:
